@@ -70,7 +70,7 @@ def run_driver(cfg, workdir, repo=None, crate='micromap'):
     return out
 
 
-def gather(cfgs, jobs_total=16):
+def gather(cfgs, jobs_total=16, select=None):
     """run the driver and the interpreter for the given configurations"""
     from . import run as runmod
     ensure_driver()
@@ -78,7 +78,7 @@ def gather(cfgs, jobs_total=16):
     try:
         with concurrent.futures.ThreadPoolExecutor(len(cfgs)) as ex:
             paths = dict(zip(cfgs, ex.map(lambda c: run_driver(c, work), cfgs)))
-        return runmod.analyse_configs(paths, jobs=jobs_total)
+        return runmod.analyse_configs(paths, jobs=jobs_total, select=select)
     finally:
         shutil.rmtree(work, ignore_errors=True)
 
